@@ -138,7 +138,10 @@ def chromsizes_series(bt):
 # ---------------------------------------------------------------------------
 
 COUNT_VALUES = st.one_of(st.integers(1, 9), st.integers(0, 3), st.integers(1, 100000))
-DYADIC = st.integers(-64, 640).map(lambda k: k / 16.0)
+# float values are dyadic rationals so that sums are exact; DYADIC fits float32
+# (<= 24 significant bits), DYADIC64 needs float64 (up to 46 bits).
+DYADIC = st.one_of(st.integers(-64, 640), st.integers(-2**20, 2**20)).map(lambda k: k / 16.0)
+DYADIC64 = st.one_of(DYADIC, st.integers(-2**45, 2**45).map(lambda k: k / 1024.0))
 SMALL_INT = st.integers(-100, 100)
 
 
